@@ -436,6 +436,25 @@ func genC11(r *RNG, tier string) []Case {
 			for k := 0; k < 2*reps; k++ {
 				vals = append(vals, [2]string{digitString(r, ni, 2), digitString(r, s, 2)})
 			}
+			// round values: a digit 1 somewhere, zeros elsewhere (a 9-digit group that is exactly a power of ten) - in the
+			// integer part under a non-zero higher digit, and in the fraction
+			if ni >= 2 {
+				iz := []byte(digitString(r, ni, 0))
+				iz[0] = byte('1' + r.Intn(9))
+				iz[1+r.Intn(ni-1)] = '1'
+				vals = append(vals, [2]string{string(iz), digitString(r, s, 0)})
+			}
+			if s >= 1 {
+				fz := []byte(digitString(r, s, 0))
+				fz[r.Intn(s)] = '1'
+				vals = append(vals, [2]string{digitString(r, ni, 0), string(fz)})
+				if s >= 10 {
+					fz2 := []byte(digitString(r, s, 0))
+					fz2[r.Intn(9)] = '1'
+					fz2[s-1] = '5'
+					vals = append(vals, [2]string{digitString(r, ni, 2), string(fz2)})
+				}
+			}
 			for _, v := range vals {
 				isZero := strings.Trim(v[0]+v[1], "0") == ""
 				for _, neg := range []int{0, 1} {
